@@ -43,6 +43,10 @@ Sensitivity (quick tier, seed 1, scratch copies of tornado/iostream.py; every mu
       C11.read_into_resized_caller_buffer (caller buffers are pre-filled with a position-dependent sentinel
       pattern; length and the whole tail beyond the returned count are compared, for every read_into
       variant - labels into[_partial]_leftover_{lt,eq,gt}_n - and also when the read fails)
+  M11 _handle_events: ``if self.writing(): state |= WRITE`` -> ``elif`` chained to the reading() test
+      -> seeds 1,2,3: C11.lost_write_interest (a third of the cases keep a write blocked on a full transport
+      during the read program, optionally flushed mid-way; at every quiescence unsent bytes => WRITE
+      registered, pending read => READ registered, and a flushed write must be complete)
   (M9 ``>= next_find_pos`` -> ``>`` survives: it only changes how often the buffer is scanned - equivalent.)
 """
 import collections
@@ -53,7 +57,7 @@ from tornado.iostream import StreamBufferFullError, StreamClosedError
 
 from vlib import iosmodel as M
 from vlib import vtime
-from vlib.memstream import MemoryIOStream
+from vlib.memstream import READ, WRITE, MemoryIOStream
 
 PROPERTY = "C11"
 READY = True
@@ -92,6 +96,7 @@ _ORDER = st.lists(st.sampled_from("FFFR"), max_size=40)
 _END_INSIDE = st.sampled_from([False] * 7 + [True] * 3)
 _END_KIND = st.sampled_from(["fin", "fin", "rst"])
 _BOOL = st.booleans()
+_BLOCKED_WRITE = st.sampled_from([None, None, None, 1, 10, 3000])
 _IDX = st.integers(0, 1000)
 
 
@@ -115,7 +120,11 @@ def case_s(draw):
         out.append(("read", sp))
     if draw(_END_INSIDE):
         out.insert(draw(_IDX) % (len(out) + 1), ("end",))
+    blocked = draw(_BLOCKED_WRITE)
+    if blocked is not None and draw(_BOOL):
+        out.insert(draw(_IDX) % (len(out) + 1), ("flush_write",))
     return {
+        "blocked_write": blocked,
         "rcs": rcs,
         "mbs": mbs,
         "data": data,
@@ -140,6 +149,32 @@ async def scenario(ctx, case, labels):
     cur = [None]
     if mbs is not None:
         labels.add("small_max_buffer_size")
+    # optional write blocked on a full transport for the whole program (reads and writes share one
+    # interest set with the event loop)
+    bw = {"fut": None, "n": case.get("blocked_write"), "flushed": False}
+    if bw["n"]:
+        s.write_credit = 0
+        bw["fut"] = s.write(b"w" * bw["n"])
+        labels.add("blocked_write_pending")
+
+    def check_interest(where):
+        """no lost interest: at quiescence an open stream with unsent bytes is registered for WRITE and one
+        with a pending read for READ"""
+        if s.closed():
+            return
+        ev = s.events if s.handler is not None else 0
+        rd = cur[0]
+        d = {"where": where, "events": ev, "read": rd.spec if rd else None, "unsent": bw["n"] if bw["fut"] else 0}
+        if bw["fut"] is not None and len(s.wire) < bw["n"] and not ev & WRITE:
+            ctx.fail(P + ".lost_write_interest", d)
+        if rd is not None and rd.fut is not None and not rd.fut.done() and not ev & READ:
+            ctx.fail(P + ".lost_read_interest", d)
+
+    def flush_write():
+        if bw["fut"] is None or s.closed():
+            return
+        s.write_credit = None
+        bw["flushed"] = True
 
     def feed(segs):
         fed = st_["fed"]
@@ -237,6 +272,11 @@ async def scenario(ctx, case, labels):
             quiet = await vtime.settle(pump=s.pump_once)
             if not quiet:
                 ctx.fail(P + ".livelock", {"note": "loop never became quiescent"})
+            check_interest("quiescence")
+            if bw["flushed"] and not s.closed():
+                if bytes(s.wire) != b"w" * bw["n"] or not bw["fut"].done():
+                    ctx.fail(P + ".blocked_write_not_flushed", {"sent": len(s.wire), "n": bw["n"], "done": bw["fut"].done()})
+                labels.add("blocked_write_flushed_mid_program")
             rd = cur[0]
             if rd is None:
                 return
@@ -275,6 +315,8 @@ async def scenario(ctx, case, labels):
                 feed(step[1])
             elif step[0] == "read":
                 queue.append(step[1])
+            elif step[0] == "flush_write":
+                flush_write()
             else:
                 do_end()
             await progress()
